@@ -101,7 +101,10 @@ def call_value(I, e, s, fv, args, kwargs):
         if c[0] == "checker":
             # a registered format function: by contract it raises only what its `raises` lists (custom checkers are outside C03)
             I.raise_("CheckerRaises", e, "registered format function")
-            return AV(["opaque", "bool"])
+            out = AV(["opaque", "bool"])
+            if len(e.args) == 1 and isinstance(e.args[0], ast.Name):
+                out.norm_tag = "checker-result:" + e.args[0].id
+            return out
         if c[0] == "handler":
             I.raise_("AnyException", e, "retrieval handler")
             return ANY
@@ -377,6 +380,8 @@ def container_method(I, e, s, k, recv, attr, args, kwargs):
             out.norm_tag = "assembled"
             return out
         if attr == "format":
+            for a in list(args) + list(kwargs.values()):
+                I.to_text(a, e, "str.format")
             out = AV(["str"])
             return out
         if attr in ("find", "count", "index"):
@@ -569,6 +574,8 @@ def b_map(I, e, s, args, kw):
 
 
 def b_strlike(I, e, s, args, kw):
+    for a in args[:1]:
+        I.to_text(a, e, norm(e.func))
     return AV(["str"])
 
 
